@@ -1,7 +1,7 @@
 CONSTANTS
-  Mode = "scalar"
+  Mode = "items2"
   Alpha = {0}
-  MaxLen = 101
+  MaxLen = 0
   First = {0}
 INIT Init
 NEXT Next
